@@ -92,7 +92,7 @@ func (r *Runner) execCallVals(st *State, f *Frame, common *ssa.CallCommon, fnv V
 			key := "(" + typeKey(common.Value.Type()) + ")." + common.Method.Name()
 			if sp := r.specFor(key); sp != nil {
 				if !r.pureIfaceMethod(typeKey(common.Value.Type()), common.Method.Name()) {
-					r.bumpIfaceVersion(st, typeKey(common.Value.Type()))
+					r.bumpIfaceVersion(st, typeKey(common.Value.Type()), recv)
 				}
 				r.contractCall(st, f, sp, nil, common.Signature(), append([]Val{recv}, args...), res, pos)
 				return
@@ -106,7 +106,7 @@ func (r *Runner) execCallVals(st *State, f *Frame, common *ssa.CallCommon, fnv V
 				return
 			}
 			// a method that may mutate the object: later reads through pure accessors see a new version
-			r.bumpIfaceVersion(st, typeKey(common.Value.Type()))
+			r.bumpIfaceVersion(st, typeKey(common.Value.Type()), recv)
 			r.note("interface call havocked: " + key)
 			r.havocCall(st, f, common.Signature(), append([]Val{recv}, args...), res, key, true)
 			return
@@ -161,6 +161,7 @@ func (r *Runner) execCallVals(st *State, f *Frame, common *ssa.CallCommon, fnv V
 		}
 		nf.blk = callee.Blocks[0]
 		st.frames = append(st.frames, nf)
+		r.runInlined(st, len(st.frames)-2)
 		return
 	}
 	if isPureExternal(key) {
@@ -387,6 +388,9 @@ func (r *Runner) contractCall(st *State, f *Frame, sp *FuncSpec, callee *ssa.Fun
 	// call history ghost: counter and last arguments/results, for calls()/calledwith()/lastret() in contracts
 	if st.lastCall == nil {
 		st.lastCall = map[string]callRec{}
+	}
+	if prev, had := st.lastCall[short]; had {
+		st.lastCall["prev:"+short] = prev // the call before the most recent one
 	}
 	st.lastCall[short] = callRec{args: args, rets: results}
 	st.ghost["calls:"+short] = st.define("calls", Add(r.callsTerm(st, short), One))
